@@ -144,6 +144,9 @@ def op_cli(task):
     files.append(("multi.c", HEADER.format(name="multi.c") + "\nint\tg_mode = 0389;\nint\tg_mask = 0b1231;\n\nint\tmain(void)\n"
                   "{\n\tchar\tc;\n\n\tc = '\\q;\n\treturn (0);\n}\n"))
     files.append(("nonl.c", content("clean", "nonl.c").rstrip("\n")))        # no final newline
+    # a header: its guard is judged against the file name, so --filename has to reach the checks
+    from vp.bounded.programs import conforming_h
+    files.append(("ft_guard.h", conforming_h("ft_guard.h")))
     files.append(("err.c", content("error", "err.c")))
     files.append(("def.c", HEADER.format(name="def.c") + "\n#define foo(x) x\n# define bar 1 +\n\nint\tmain(void)\n{\n\treturn (0);\n}\n"))
     optsets = []
